@@ -714,8 +714,14 @@ def scan_scope(toks, ns, funcs, classes, in_class=None):
         if head and head[0] not in ("using", "typedef", "enum", "extern"):
             try:
                 hd = parse_header(head)
-            except Untranslatable:
+            except Untranslatable as e:
+                # a function whose header is outside the fragment is NOT dropped: it becomes a row that the
+                # checkers reject (main() puts it into op_methods_cache_delta, which must be exactly the one
+                # reviewed method: theorem cache_variant_ok fails and names it)
                 hd = None
+                UNPARSED.append({"ns": "::".join(x for x in ns if x != "primitiv"), "qual": in_class["name"] if in_class is not None else "",
+                                 "name": "<unparsed function header: %s>" % " ".join(head)[:200], "ret": "", "params": [], "inits": [],
+                                 "body": [["SOther", "unparsed header (%s)" % str(e)[:120]]]})
         if hd is not None:
             try:
                 stm = P(toks[body + 1:c]).stmts()
@@ -772,7 +778,11 @@ def parse_fields(head):
 
 # --------------------------------------------------------------------------- reading the repo
 
+UNPARSED = []   # functions with a body whose header parse_header() rejected, collected by scan_scope during read_all
+
+
 def read_all(cache=False):
+    del UNPARSED[:]
     core = os.path.join(repo(), "primitiv", "core")
     for f in ("operator.h", "operator_impl.h", "operator_impl.cc", "node_funcs.cc", "tensor_funcs.cc", "device.cc",
               "tensor.cc", "basic_functions.h", "arithmetic.h"):
@@ -1017,6 +1027,7 @@ def main(cache=False, write_v=True):
     err = None
     try:
         tabs = read_all(cache)
+        unparsed = list(UNPARSED)
         if not cache:
             # methods whose body differs under -DPRIMITIV_USE_CACHE (a second preprocessor run)
             ctabs = read_all(True)
@@ -1026,6 +1037,7 @@ def main(cache=False, write_v=True):
             if other:   # any other table changing under the cache flag is reported as an unparsed method
                 tabs["op_methods_cache_delta"].append({"ns": "", "qual": "", "name": "<tables differ: %s>" % ",".join(other),
                                                         "ret": "", "params": [], "inits": [], "body": [["SOther", "cache"]]})
+        tabs.setdefault("op_methods_cache_delta", []).extend(unparsed)
     except Untranslatable as e:
         err = str(e)
         tabs = dict(EMPTY)
